@@ -494,7 +494,9 @@ def check_hilbert_schmidt(case):
     hs = float(np.sum(lam**2))
     smax2 = float(np.max(np.abs(lam)) ** 2)
     if not _close(v, hs, TOL_LA):
-        if _close(v, smax2, TOL_LA) and abs(hs - smax2) > 1e-6:
+        # (v differs from hs at TOL_LA here; a fixed 1e-6 gap requirement used to mis-file small-magnitude instances of the
+        # same known defect - nearly equal states, difference ~1e-7 - under 'hs=other': a false alarm in the thorough tier)
+        if _close(v, smax2, TOL_LA):
             raise Violation(
                 f"hilbert_schmidt returned {v!r} = sigma_max(rho-sigma)^2 (squared spectral norm); the documented "
                 f"Tr(rho-sigma)^2 = ||rho-sigma||_2^2 is {hs!r} {_fmt(case)}",
